@@ -553,6 +553,67 @@ def run_protos(ck):
     ck.add_samples([show_proto(c) for c in ok if c["class"] == "otlp_logs"][:1])
 
 
+# ------------------------------------------------------------------------------------------ fingerprint types
+def run_djb(ck):
+    """pairs of label sets under FingerPrintType = CityHash and Bernstein (32 bits): the recorded collision witness"""
+    corpus = os.path.join(CORPUS, "djb.jsonl")
+    outp = os.path.join(ck.work, "djb.jsonl")
+    rc, out = ck.go_run("seriesid", ["--mode", "djb", "--cases", corpus, "--out", outp])
+    if rc != 0:
+        ck.obligation("harness seriesid --mode djb ran on the corpus", False, out[-1500:])
+        return
+    cases = [json.loads(l) for l in open(outp)]
+    bad = [c for c in cases if c.get("panic")]
+    ck.obligation("every pair of label sets was fingerprinted under both fingerprint types", not bad and cases, json.dumps(bad[:1])[:500])
+    ok = [c for c in cases if not c.get("panic")]
+    txt = ("From Coq Require Import List ZArith Bool String Ascii Uint63.\n"
+           "From Qryn Require Import model.GoQuote model.LabelJson model.Fingerprint model.Labels model.ProtoLabels.\n"
+           "Import ListNotations.\nOpen Scope Z_scope.\n"
+           "Definition cases : list jcase := [\n  " +
+           ";\n  ".join("{| jc_id := %d; jc_a := %s; jc_b := %s; jc_ch := %s; jc_city_a := %s; jc_city_b := %s; jc_djb_a := %s; jc_djb_b := %s |}" % (
+               c["id"], coq_hexpairs(c["a"]), coq_hexpairs(c["b"]), coq_list(["(%s, %s)" % (coq_bytes(unhex(h)), coq_u64(v)) for h, v in c.get("ch") or []]),
+               coq_u64(c["city_a"]), coq_u64(c["city_b"]), coq_u64(c["djb_a"]), coq_u64(c["djb_b"])) for c in ok) +
+           "].\nDefinition R := Eval vm_compute in jreport cases.\nPrint R.\n")
+    rc, out = ck.coq_eval("C04_djb", txt)
+    res = parse_report(out, ["M_j", "V_city", "K_djb", "V_range"]) if rc == 0 else None
+    if res is None:
+        ck.obligation("fingerprint-type cases evaluated inside Coq", False, out[-1500:])
+        return
+    byid = {c["id"]: c for c in ok}
+    dh = lambda pairs: [[unhex(a).decode("latin1"), unhex(b).decode("latin1")] for a, b in pairs]
+    show = lambda c: {"label set A": dh(c["a"]), "label set B": dh(c["b"]), "CityHash fingerprints": [c["city_a"], c["city_b"]], "Bernstein fingerprints": [c["djb_a"], c["djb_b"]]}
+    ck.obligation("correspondence: model fingerprint (CityHash) and fin_djb (Bernstein) = fingerprintLabels under both fingerprint types on %d pairs of label sets" % len(ok),
+                  not res["M_j"], "case ids: %s" % res["M_j"])
+    ck.obligation("spec: a Bernstein fingerprint is below 2^32 (fin_djb_range)", not res["V_range"], "case ids: %s" % res["V_range"])
+    ck.obligation("spec: different label sets get different fingerprints under FingerPrintType = CityHash (the default) on these pairs", not res["V_city"], "case ids: %s" % res["V_city"])
+    # the city.CH64 values quoted in bernstein_fingerprints_collide are those of the code
+    src = open(os.path.join(HERE, "coq", "proofs", "ProtoGuardProofs.v")).read()
+    blk = re.search(r"Definition djb_tbl.*?\]\.", src, re.S)
+    quoted = dict(re.findall(r'\("(\w+)"%string, (\d+)\)', blk.group(0))) if blk else {}
+    real = {unhex(h).decode("latin1"): str(v) for c in ok for h, v in c.get("ch") or []}
+    wrong = {k: (v, real.get(k)) for k, v in quoted.items() if real.get(k) != v}
+    ck.obligation("the %d city.CH64 values used by bernstein_fingerprints_collide are the values the code computes" % len(quoted), len(quoted) >= 3 and not wrong, "quoted vs computed: %s" % wrong)
+    if res["V_city"]:
+        c = byid[res["V_city"][0]]
+        ck.violation({"property": "C04", "part": "djb", "kind": "two different label sets share a fingerprint under FingerPrintType = CityHash", "case": c, "readable": show(c),
+                      "replay": "seriesid --mode djb --cases <file with this case>"})
+    if res["K_djb"]:
+        c = byid[res["K_djb"][0]]
+        witness = [c2 for c2 in (byid[i] for i in res["K_djb"]) if c2.get("class") == "bernstein-collision"]
+        other = [i for i in res["K_djb"] if byid[i].get("class") != "bernstein-collision"]
+        if "bernstein-fingerprint-32-bit" in ck.known_findings() and witness and not other:
+            ck.report_known("bernstein-fingerprint-32-bit", "under FingerPrintType = Bernstein (hash_type: default) %s" % json.dumps(show(witness[0])))
+        else:
+            c = byid[other[0]] if other else c
+            ck.violation({"property": "C04", "part": "djb", "kind": "two different label sets share a fingerprint under FingerPrintType = Bernstein", "case": c, "readable": show(c),
+                          "replay": "seriesid --mode djb --cases <file with this case>"})
+    if res["M_j"] and not ck.violations:
+        ck.violation({"property": "C04", "part": "djb", "kind": "model/implementation disagree on a fingerprint type", "case": byid[res["M_j"][0]]}, no_input=True)
+    ck.coverage["evaluations"] += len(cases)
+    ck.coverage["distinct_nontrivial"] += len(cases)
+    ck.coverage["rule"] += "djb: the corpus pairs of label sets (the recorded Bernstein collision found by a birthday search, control pairs) under both fingerprint types; all non-trivial. "
+
+
 # ------------------------------------------------------------------------------------------ histories
 H_LISTS = ["M_hist", "V_hist"]
 TNAME = {0: "TBoth", 1: "TLog", 2: "TMetric"}
@@ -935,6 +996,6 @@ def run(ck):
         return
     # VERIF_C04_PARTS=labels,protos runs only these parts (development aid; the evidence of such a run is partial)
     parts = [x for x in os.environ.get("VERIF_C04_PARTS", "").split(",") if x]
-    for name, fn in (("labels", run_labels), ("protos", run_protos), ("hist", run_hist), ("keys", run_keys), ("dates", run_dates)):
+    for name, fn in (("labels", run_labels), ("protos", run_protos), ("djb", run_djb), ("hist", run_hist), ("keys", run_keys), ("dates", run_dates)):
         if not parts or name in parts:
             fn(ck)
